@@ -253,3 +253,26 @@ let xisa_main () =
     done;
     P.printf "END %s code=%d steps=%d consumed=%d minsp=%d out=%s | MON %s\n" !fin (u32 !code) !steps
       (SL.length cons - SL.length !inp.Isa.console) !minsp (out_str (SL.rev !out)) !mon)
+
+(* ---------------------------------------------------------------- xcg: the model of xcmp's expression code generator
+   stdin lines:  name=addr name=addr ... | <expression>      -> "LDAM 2; LDBC 3; ADD" or "none" (outside the fragment) *)
+let xcg_main () =
+  try while true do
+    let line = input_line stdin in
+    if SS.trim line <> "" then begin
+      match SS.index_opt line '|' with
+      | None -> print_endline "bad"
+      | Some i ->
+          let amap = SL.map (fun kv -> match SS.split_on_char '=' kv with [k; v] -> (k, int_of_string v) | _ -> failwith "bad map")
+                       (tokens (SS.sub line 0 i)) in
+          let e = expr_of (parse_sx (SS.sub line (i + 1) (SS.length line - i - 1))) in
+          let addr (x : String.string) = match SL.assoc_opt (ocaml_string x) amap with Some a -> Some (zi a) | None -> None in
+          (match XCodegenExpr.cg addr e XCodegenExpr.RA with
+           | None -> print_endline "none"
+           | Some code ->
+               print_endline (SS.concat "; " (SL.map (function
+                 | XCodegenExpr.LDAC v -> P.sprintf "LDAC %d" (iz v) | XCodegenExpr.LDBC v -> P.sprintf "LDBC %d" (iz v)
+                 | XCodegenExpr.LDAM a -> P.sprintf "LDAM %d" (iz a) | XCodegenExpr.LDBM a -> P.sprintf "LDBM %d" (iz a)
+                 | XCodegenExpr.ADD -> "ADD" | XCodegenExpr.SUB -> "SUB") code)))
+    end
+  done with End_of_file -> ()
